@@ -943,6 +943,22 @@ class Exec:
         ty = c.ty
         if isinstance(ty, TRef) and ty.cls in self.w.dict_classes:
             return self.contains(self.heap_read(c, 'm', self.w.ty(self.w.dict_classes[ty.cls])), x)
+        if isinstance(ty, (TSet, TMap, TOMap)) and isinstance(x.ty, TTuple) and any(isinstance(e.ty, TOpt) for e in x.t):
+            kty_ = ty.elem if isinstance(ty, TSet) else ty.k
+            if isinstance(kty_, TTuple) and len(kty_.items) == len(x.t):
+                # a tuple key with optional components against a container of tuples with non-optional ones: a None component is no member, otherwise the values are compared
+                conds = []; items = []
+                for e, kt in zip(x.t, kty_.items):
+                    if isinstance(e.ty, TOpt) and not isinstance(kt, TOpt): conds.append(z3.Not(e.t[0])); items.append(e.t[1])
+                    else: items.append(e)
+                x2 = V(TTuple([i_.ty for i_ in items]), items)
+                if conds and self._coercible(x2, kty_): return z3.And(*(conds + [self.contains(c, x2)]))
+        if isinstance(ty, (TSet, TMap, TOMap)) and isinstance(x.ty, TOpt):
+            kty_ = ty.elem if isinstance(ty, TSet) else ty.k
+            if not isinstance(kty_, TOpt) and self._coercible(x.t[1], kty_):
+                # an optional value tested against a container of non-optional keys: None is not a member, otherwise membership of the value
+                # (this used to fall into the "incomparable types: False" case below and made the whole test constant False -- soundness fix)
+                return z3.And(z3.Not(x.t[0]), self.contains(c, x.t[1]))
         if isinstance(ty, TSet): return z3.Select(c.t[0], pack(coerce(x, ty.elem))) if self._coercible(x, ty.elem) else z3.BoolVal(False)
         if isinstance(ty, TMap): return z3.Select(c.t[0], pack(coerce(x, ty.k))) if self._coercible(x, ty.k) else z3.BoolVal(False)
         if isinstance(ty, TOMap): return T.omap_member(c, pack(coerce(x, ty.k))) if self._coercible(x, ty.k) else z3.BoolVal(False)
